@@ -14,6 +14,8 @@ atomic call on one cache:
   jsonpurge - purge=True over a JSON file archive with non-text keys (the archive hands keys back as text): the memory bound still holds.
   redecorate - a second decorator (fresh function object) over the SAME cache object while the first one's results are still only in memory.
   rrlookup - rr_cache over a bare archive used as the cache: lookup()/key()/info() between calls do not change what is evicted.
+  stacked - a klepto cache over a klepto-cached function, and over a function with attributes named like the interface: the outer
+           wrapper's info()/clear()/__cache__() are its own.
   reuse  - ONE decorator object applied to two functions (`memo = lru_cache(maxsize=3); f = memo(f0); g = memo(g0)`): each
            function's results are its own, each has its own account in info(), clear() of one leaves the other's counters.
 
@@ -60,7 +62,8 @@ def gen(tier, idx):
     if idx % 16 == 7: scen = 'hashraises'
     if idx % 32 == 11: scen = 'jsonpurge'
     if idx % 32 == 27: scen = 'redecorate'
-    if idx % 32 == 19: scen = 'rrlookup'
+    if idx % 64 == 19: scen = 'rrlookup'
+    if idx % 64 == 51: scen = 'stacked'
     algo = ALGOS[(idx // 4) % 6]; safe = (idx // 24) % 2 == 1
     cfg = dict(scen=scen, algo=algo, safe=safe, seed=r.randrange(10 ** 6), maxsize=r.choice([1, 2, 3, 3, 5]), purge=r.random() < 0.35)
     if scen == 'reuse': cfg.update(algo=ALGOS[(idx // 8) % 6], safe=(idx // 48) % 2 == 1)
@@ -70,10 +73,15 @@ def gen(tier, idx):
         cfg.update(algo=['lru', 'lfu', 'mru', 'rr', 'no'][(idx // 8) % 5], safe=(idx // 40) % 2 == 1, arch='dir', purge=False, maxsize=r.choice([1, 2]),
                    keymap=['string', 'raw', 'stringr'][(idx // 8) % 3], calls=[r.randrange(len(NAME_ARGS)) for _ in range(24)])
     if scen == 'names': pass
+    elif scen == 'stacked':
+        # a klepto cache over a klepto cache (a small in-memory one over an archived one), and a function that carries attributes of its own
+        # named like the wrapper's interface: the OUTER wrapper's info / clear / lookup / __cache__ are the outer wrapper's
+        cfg.update(algo=['lru', 'lfu', 'mru', 'rr', 'inf', 'no'][(idx // 64) % 6], safe=(idx // 64) % 2 == 1, arch='none', purge=False, maxsize=2,
+                   inner=['inf', 'lru', 'no'][(idx // 64) % 3], calls=[r.randrange(5) for _ in range(12)])
     elif scen == 'rrlookup':
         # random replacement draws its victims from the global `random` stream: a lookup()/key()/info() in between - whatever the cache object
         # has to do to answer it (an archive used directly as the cache reads files, imports modules) - must not draw from that stream
-        cfg.update(algo='rr', safe=(idx // 32) % 2 == 1, arch=['baredirsrc', 'barefilesrc', 'baredir', 'dict', 'barefile'][(idx // 64) % 5], purge=False, maxsize=r.choice([2, 3]),
+        cfg.update(algo='rr', safe=(idx // 64) % 2 == 1, arch=['baredirsrc', 'barefilesrc', 'baredir', 'dict', 'barefile'][(idx // 64) % 5], purge=False, maxsize=r.choice([2, 3]),
                    calls=[r.randrange(8) for _ in range(24)], looks=[r.randrange(8) for _ in range(24)])
     elif scen == 'redecorate':
         # a second decorator (a fresh function object) is put over the SAME cache object while results of the first are still only in memory
@@ -248,6 +256,36 @@ def run_case(cfg):
                 if len(f.__cache__()) > cfg['maxsize']:
                     bad('C05', 'purge-size-exceeds-maxsize', 'purge=True over a JSON file archive (%s keys): after h(%d) the cache holds %d entries' % (cfg['keymap'], x, len(f.__cache__())), keymap=cfg['keymap'])
                     break
+        elif cfg['scen'] == 'stacked':
+            import klepto, klepto.safe
+            from klepto.keymaps import stringmap
+            evals = []
+            def base(x): evals.append(x); return 'v%d' % x
+            base.info = 'an attribute of the function itself'; base.tag = 7
+            Di = getattr(klepto, cfg['inner'] + '_cache')
+            inner = Di(keymap=stringmap()) if cfg['inner'] in ('inf', 'no') else Di(maxsize=50, keymap=stringmap())
+            mid = inner(base)
+            okw = dict(keymap=stringmap()) if cfg['algo'] in ('inf', 'no') else dict(keymap=stringmap(), maxsize=cfg['maxsize'])
+            for target_, what in ((mid, 'a klepto-cached function'), (base, 'a function with an attribute called info')):
+                f = D(**okw)(target_)
+                n = 0
+                for x in cfg['calls']:
+                    if callf(f, x) not in ('v%d' % x, _Raised): bad('C01', 'stacked-wrong-result', 'f(%d) wrong' % x)
+                    n += 1
+                try:
+                    i = f.info(); tot = i.hit + i.miss + i.load
+                    want_ms = None if cfg['algo'] == 'inf' else (0 if cfg['algo'] == 'no' else cfg['maxsize'])
+                    if tot != n or i.maxsize != want_ms:
+                        bad('C15', 'outer-info-is-not-the-outer-account', 'a %s.%s_cache over %s: after %d calls the outer wrapper\'s info() is %r (it made %d calls, its maxsize is %r)' % (
+                            'safe' if cfg['safe'] else 'klepto', cfg['algo'], what, n, tuple(i), n, want_ms), what=what.split()[1])
+                    if i.size != len(f.__cache__()):
+                        bad('C18', 'outer-cache-is-not-the-outer-cache', 'over %s: info().size = %d, len(f.__cache__()) = %d' % (what, i.size, len(f.__cache__())), what=what.split()[1])
+                    if getattr(f, 'tag', None) != 7 and target_ is base: bad('C18', 'function-attributes-not-carried-over', 'f.tag = %r' % (getattr(f, 'tag', None),))
+                    f.clear()
+                    if tuple(f.info())[:3] != (0, 0, 0):
+                        bad('C15', 'outer-clear-does-not-reset-the-outer-account', 'over %s: after clear() info() is %r' % (what, tuple(f.info())), what=what.split()[1])
+                except TypeError as e:
+                    bad('C15', 'outer-info-is-not-callable', 'over %s: f.info is %r' % (what, getattr(f, 'info', None)), what=what.split()[1])
         elif cfg['scen'] == 'rrlookup':
             import klepto.archives as ka
             from klepto.keymaps import hashmap
@@ -434,7 +472,7 @@ def explore(prop, tier, offset=0):
         tags[o['cfg']['scen']] += 1; tags['algo=' + o['cfg']['algo']] += 1
         for v in o['viol']:
             if v['prop'] in (prop, '*'): viols.append(dict(v, prop=prop, i=0, cfg=o['cfg'], ops=[]))
-    n = sum(tags[s] for s in ('recur', 'twin', 'unser', 'reuse', 'names', 'chdir', 'hashraises', 'jsonpurge', 'redecorate', 'rrlookup'))
+    n = sum(tags[s] for s in ('recur', 'twin', 'unser', 'reuse', 'names', 'chdir', 'hashraises', 'jsonpurge', 'redecorate', 'rrlookup', 'stacked'))
     # the recursive traces against the model (flat history of completions)
     import run_wrapper as rw
     trs = [o['trace'] for o in res if o.get('trace') is not None]
